@@ -17,7 +17,9 @@ where
     S: Serializer,
 {
     use std::io::ErrorKind::*;
-    match *kind {
+    // The value must be written with the same integer type it is read back with: an untyped
+    // literal would be an i32, which non-self-describing codecs encode differently from a u32.
+    let kind: u32 = match *kind {
         NotFound => 0,
         PermissionDenied => 1,
         ConnectionRefused => 2,
@@ -37,8 +39,8 @@ where
         Other => 16,
         UnexpectedEof => 17,
         _ => 16,
-    }
-    .serialize(serializer)
+    };
+    kind.serialize(serializer)
 }
 
 /// Deserializes [`io::ErrorKind`] from a `u32`.
